@@ -13,6 +13,10 @@ CHECKS = {
           "Each value is built with FeelNumber::from_str from scientific text; its Display and JSON renderings must be plain decimal / a JSON number denoting exactly coefficient x 10^exponent (decided by digit-string arithmetic), reading the text back must give an equal number, the xsd input conversions and the FEEL literal with the same digits must give that value.",
           "Quick covers coefficient lengths {1,2,3,7,16,17,33,34}, thorough all 1..34; not every coefficient. Results of arithmetic are pushed through the same checks by C02.",
           "DESIGN.md §4 C07"),
+  "C08": ("exhaustive enumeration of argument tuples per built-in (strings incl. non-ASCII and non-BMP, every position/length from -(n+2) to n+2 plus non-integer and trailing-zero spellings, all lists up to length 3 over a 5-item alphabet plus canonical longer ones, every value kind in every position, arity 0 and declared+1) against one independent reference function per built-in; named invocation in every parameter order against the positional one",
+          "Every (function, tuple) of the alphabets is evaluated through parse + evaluate and compared with the reference function (including a small backtracking matcher for the regular-expression alphabet); each call with named parameters, in every order, must give the positional result.",
+          "Trusts the reference functions in engines/c08.rs (written from DMN 1.3 10.3.4). Where the text is silent the case is executed but not compared (counted). Regular expressions are limited to the reference matcher's pattern alphabet.",
+          "DESIGN.md §4 C08"),
   "C09": ("exhaustive enumeration of all ordered pairs and triples of a 46-value alphabet covering every value kind, and of all pairs and triples of dense number / string / date lattices; algebraic laws checked between observations of the real evaluator",
           "For every ordered pair: and/or truth tables, symmetry of =, != as negation of =, mirror laws of < > <= >=; for pairs of one ordered kind trichotomy and <= as (< or =); for every ordered triple of one ordered kind agreement of between, the four interval forms and the conjunction of comparisons. The universes are enumerated completely.",
           "The laws relate two observations of the implementation, so no reference model is trusted (only the and/or truth tables). Values outside the alphabets and lattices are not covered.",
